@@ -174,6 +174,24 @@ def h_utc(name, path, clauses):
                 if not eisdst:
                     ctx.check(tsdt.secs(wall.dst()) == 0, "non-zero dst() where the data marks standard time",
                               key="%s:%d:data-dst" % (name, i), zone=name)
+            if not ctx.symbolic and i >= 0:
+                # sub-second instants (native, real datetimes): the last microsecond before the transition that opens this
+                # interval belongs to the previous interval, like the whole second before it
+                import datetime as _d
+                T = t["trans"][i]
+                ep = _d.datetime(1970, 1, 1)
+
+                def ans(d):
+                    w2 = z.fromutc(d.replace(tzinfo=z))
+                    return (w2.utcoffset(), w2.tzname(), w2.dst(), w2.replace(tzinfo=None) - d)
+                a = ans(ep + _d.timedelta(seconds=T - 1))
+                b = ans(ep + _d.timedelta(seconds=T - 1, microseconds=999999))
+                c = ans(ep + _d.timedelta(seconds=T, microseconds=1))
+                d0 = ans(ep + _d.timedelta(seconds=T))
+                ctx.check(a == b, "the instant one microsecond before a transition is answered %r, the whole second before it %r" % (b[:2], a[:2]),
+                          key="%s:%d:subsecond-before" % (name, i), zone=name)
+                ctx.check(c == d0, "the instant one microsecond after a transition is answered %r, the transition instant itself %r" % (c[:2], d0[:2]),
+                          key="%s:%d:subsecond-after" % (name, i), zone=name)
         return int(i)
     return fn, types
 
